@@ -2093,13 +2093,21 @@ impl IndentedDisplay for XmlElement {
             write!(f, ">")?;
 
             let mut has_element = false;
+            let mut tail = String::new();
             for child in self.children.borrow().as_slice() {
                 if child.as_element().is_some() {
                     has_element = true;
                     writeln!(f)?;
                 }
 
-                child.indented(indent + 4, f)?;
+                if let Some(text) = child.as_text() {
+                    let text = text_after(tail.as_str(), text.borrow().character_code());
+                    write!(f, "{}", text)?;
+                    tail.push_str(text.as_str());
+                } else {
+                    child.indented(indent + 4, f)?;
+                    tail.clear();
+                }
             }
 
             if has_element {
@@ -2317,8 +2325,16 @@ impl fmt::Display for XmlElement {
         } else {
             write!(f, ">")?;
 
+            let mut tail = String::new();
             for child in self.children.borrow().as_slice() {
-                child.fmt(f)?;
+                if let Some(text) = child.as_text() {
+                    let text = text_after(tail.as_str(), text.borrow().character_code());
+                    write!(f, "{}", text)?;
+                    tail.push_str(text.as_str());
+                } else {
+                    child.fmt(f)?;
+                    tail.clear();
+                }
             }
 
             write!(f, "</")?;
@@ -4528,6 +4544,18 @@ fn escape(value: &str) -> String {
         format!("'{}'", value)
     } else {
         format!("\"{}\"", value)
+    }
+}
+
+/// Text node as printed directly after another text node that was printed as `tail`:
+/// the two must not join into "]]>", which may not occur in character data.
+fn text_after(tail: &str, text: &str) -> String {
+    if tail.ends_with("]]") && text.starts_with('>') {
+        format!("&gt;{}", &text[1..])
+    } else if tail.ends_with(']') && text.starts_with("]>") {
+        format!("]&gt;{}", &text[2..])
+    } else {
+        text.to_string()
     }
 }
 
